@@ -477,8 +477,19 @@ def minimise(e, kind, st, cache, mcache):
     return res
 
 
-def finding_key(kind, st, m):
-    """position class : failure kind : constructors of the minimised expression (sorted)"""
+def family(m):
+    """Defect family of a minimised failing expression, from the constructors it still needs."""
     names = {'Eq': 'Cmp', 'Ne': 'Cmp', 'IsN': 'IsNone', 'IsNN': 'IsNone', 'N': 'Not'}
-    cs = sorted(set(names.get(c, c) for c in constructors(m)))
-    return '%s:%s:%s' % (POS_CLASS[kind], st, '+'.join(cs) or 'atom')
+    cs = set(names.get(c, c) for c in constructors(m))
+    if 'If' in cs:
+        if cs <= {'If', 'Not'}: return 'ifexp-nested'
+        if 'Const' in cs: return 'ifexp+constant'
+        return 'ifexp+boolop'
+    if 'Const' in cs: return 'constant-operand'
+    if cs & {'Cmp', 'IsNone'} and cs & {'And', 'Or'}: return 'boolop-as-operand'
+    return '+'.join(sorted(cs)) or 'atom'
+
+
+def finding_key(kind, st, m):
+    """position class : failure kind : defect family of the minimised expression"""
+    return '%s:%s:%s' % (POS_CLASS[kind], st, family(m))
